@@ -350,6 +350,68 @@ struct World
   }
 };
 
+
+static Entity make_remote(World &w, int flags, int ts, const std::string &form, const std::string &tcls)
+{
+  Entity en;
+  en.remote = true;
+  uint8_t tb[16], sb[8];
+  for (auto &b : tb)
+    b = (uint8_t)(w.rng());
+  for (auto &b : sb)
+    b = (uint8_t)(w.rng());
+  tb[0] |= 1;
+  sb[0] |= 1;
+  tb[7] = tcls == "hi" ? (uint8_t)(0xc0 + w.rng() % 0x40) : (uint8_t)(w.rng() % 0x40);
+  if (form == "zero" || form == "notrace")
+    memset(tb, 0, 16);
+  if (form == "zero" || form == "nospan")
+    memset(sb, 0, 8);
+  en.ctx  = api::SpanContext(api::TraceId(tb), api::SpanId(sb), api::TraceFlags((uint8_t)flags), true, w.ts_obj(ts));
+  en.span = nostd::shared_ptr<api::Span>(new api::DefaultSpan(en.ctx));
+  return en;
+}
+
+static void make_options(World &w, const json &m, api::StartSpanOptions &opt)
+{
+  std::string mtype = m["type"];
+  if (mtype == "sc0")
+  {
+    switch (w.rng() % 3)
+    {
+      case 0:
+        opt.parent = api::SpanContext::GetInvalid();
+        break;
+      case 1:
+        opt.parent = api::SpanContext(false, false);
+        break;
+      default:
+        opt.parent = api::SpanContext(true, true);
+    }
+  }
+  else if (mtype == "sc")
+  {
+    Entity &pe = w.ents[(size_t)m["e"].get<int>() - 1];
+    opt.parent = pe.remote ? pe.ctx : pe.span->GetContext();
+  }
+  else if (mtype == "ctx")
+  {
+    ctxns::Context c;
+    if (w.rng() % 2)
+      c = c.SetValue("unrelated", (int64_t)7);
+    bool root_first = w.rng() % 2;
+    if (m["root"].get<bool>() && root_first)
+      c = c.SetValue(api::kIsRootSpanKey, true);
+    if (m["e"].get<int>() != 0)
+      c = c.SetValue(api::kSpanKey, w.ents[(size_t)m["e"].get<int>() - 1].span);
+    if (m["root"].get<bool>() && !root_first)
+      c = c.SetValue(api::kIsRootSpanKey, true);
+    else if (!m["root"].get<bool>() && w.rng() % 3 == 0)
+      c = c.SetValue(api::kIsRootSpanKey, false);  // an explicit "not root" is the same as no marker
+    opt.parent = c;
+  }
+}
+
 struct Problem
 {
   std::string kind;  // mismatch | alt
@@ -541,24 +603,7 @@ static bool run_behaviour(const json &steps, uint64_t seed, bool random_ids, Pro
     ++nsteps;
     if (op == "remote")
     {
-      Entity en;
-      en.remote = true;
-      uint8_t tb[16], sb[8];
-      for (auto &b : tb)
-        b = (uint8_t)(w.rng());
-      for (auto &b : sb)
-        b = (uint8_t)(w.rng());
-      tb[0] |= 1;
-      sb[0] |= 1;
-      tb[7]             = st["tcls"] == "hi" ? (uint8_t)(0xc0 + w.rng() % 0x40) : (uint8_t)(w.rng() % 0x40);
-      std::string form  = st["form"];
-      if (form == "zero" || form == "notrace")
-        memset(tb, 0, 16);
-      if (form == "zero" || form == "nospan")
-        memset(sb, 0, 8);
-      en.ctx = api::SpanContext(api::TraceId(tb), api::SpanId(sb), api::TraceFlags((uint8_t)st["flags"].get<int>()),
-                                true, w.ts_obj(st["ts"].get<int>()));
-      en.span = nostd::shared_ptr<api::Span>(new api::DefaultSpan(en.ctx));
+      Entity en = make_remote(w, st["flags"].get<int>(), st["ts"].get<int>(), st["form"], st["tcls"]);
       if (st["trace"].get<long>() != 0)
       {
         w.trace_sym[st["trace"].get<long>()] = hx(en.ctx.trace_id());
@@ -577,45 +622,10 @@ static bool run_behaviour(const json &steps, uint64_t seed, bool random_ids, Pro
       int t              = st["t"];
       std::string s      = st["s"];
       const json &m      = st["m"];
-      std::string mtype  = m["type"];
       w.gen.hi           = st["tcls"] == "hi";
       auto tracer        = w.provider(s)->GetTracer("c05", (w.rng() % 2) ? "1.0" : "");
       api::StartSpanOptions opt;
-      if (mtype == "sc0")
-      {
-        switch (w.rng() % 3)
-        {
-          case 0:
-            opt.parent = api::SpanContext::GetInvalid();
-            break;
-          case 1:
-            opt.parent = api::SpanContext(false, false);
-            break;
-          default:
-            opt.parent = api::SpanContext(true, true);
-        }
-      }
-      else if (mtype == "sc")
-      {
-        Entity &pe = w.ents[(size_t)m["e"].get<int>() - 1];
-        opt.parent = pe.remote ? pe.ctx : pe.span->GetContext();
-      }
-      else if (mtype == "ctx")
-      {
-        ctxns::Context c;
-        if (w.rng() % 2)
-          c = c.SetValue("unrelated", (int64_t)7);
-        bool root_first = w.rng() % 2;
-        if (m["root"].get<bool>() && root_first)
-          c = c.SetValue(api::kIsRootSpanKey, true);
-        if (m["e"].get<int>() != 0)
-          c = c.SetValue(api::kSpanKey, w.ents[(size_t)m["e"].get<int>() - 1].span);
-        if (m["root"].get<bool>() && !root_first)
-          c = c.SetValue(api::kIsRootSpanKey, true);
-        else if (!m["root"].get<bool>() && w.rng() % 3 == 0)
-          c = c.SetValue(api::kIsRootSpanKey, false);  // an explicit "not root" is the same as no marker
-        opt.parent = c;
-      }
+      make_options(w, m, opt);
       opt.kind = (api::SpanKind)(w.rng() % 5);
       Entity en;
       run_on(t, [&] { en.span = tracer->StartSpan("s", opt); });
@@ -660,7 +670,7 @@ static bool run_behaviour(const json &steps, uint64_t seed, bool random_ids, Pro
       int t      = st["t"];
       Entity &en = w.ents[(size_t)st["e"].get<int>() - 1];
       run_on(t, [&] {
-        w.scopes[(size_t)t].emplace_back(new api::Scope(api::Tracer::WithActiveSpan(en.span)));
+        w.scopes[(size_t)t].emplace_back(new api::Scope(en.span));
       });
     }
     else if (op == "release")
@@ -769,7 +779,7 @@ static bool run_behaviour(const json &steps, uint64_t seed, bool random_ids, Pro
   return ok;
 }
 
-static int cmd_replay(const char *path, uint64_t seed, bool random_ids)
+static int cmd_replay(const char *path, uint64_t seed, bool random_ids, bool verbose)
 {
   std::ifstream in(path);
   std::string line;
@@ -782,6 +792,8 @@ static int cmd_replay(const char *path, uint64_t seed, bool random_ids)
     Problem pb;
     ++n;
     long id = b["id"];
+    if (verbose)
+      std::cout << json{{"at", id}}.dump() << std::endl;
     if (!run_behaviour(b["steps"], seed * 1000003 + (uint64_t)id, random_ids, pb, nsteps, nstarts))
     {
       ++bad;
@@ -797,7 +809,7 @@ static int cmd_replay(const char *path, uint64_t seed, bool random_ids)
 
 // ---- fork: a TLC behaviour is replayed in the parent, then fork(); parent and child each start
 // more spans with the RandomIdGenerator; all ids must be pairwise distinct (fresh across processes)
-static int cmd_fork(const char *path, uint64_t seed)
+static int cmd_fork(const char *path, uint64_t seed, bool verbose)
 {
   std::ifstream in(path);
   std::string line;
@@ -808,6 +820,8 @@ static int cmd_fork(const char *path, uint64_t seed)
       continue;
     json b = json::parse(line);
     ++n;
+    if (verbose)
+      std::cout << json{{"at", b["id"]}}.dump() << std::endl;
     // single-threaded on purpose (fork with helper threads is not defined behaviour)
     Capture cap;
     std::unique_ptr<sdkt::SpanProcessor> proc(
@@ -897,12 +911,187 @@ static int cmd_fork(const char *path, uint64_t seed)
   return 0;
 }
 
+// ---- record: random programs on the real tracer, logged in the vocabulary of SpanIdentityTrace.tla
+static const char *ALL_SAMPLERS[] = {"on", "off", "pb_on", "pb_off", "r0", "r1", "rmid", "c_DROP_n", "c_DROP_0",
+                                     "c_DROP_2", "c_RO_n", "c_RO_0", "c_RO_2", "c_RS_n", "c_RS_0", "c_RS_2"};
+struct Ranks
+{
+  std::map<std::string, int> r;
+  int next = 1;
+  int of(const std::string &key, bool zero)
+  {
+    if (zero)
+      return 0;
+    auto it = r.find(key);
+    if (it != r.end())
+      return it->second;
+    return r[key] = next++;
+  }
+  int trace(const api::TraceId &t) { return of("T" + hx(t), !t.IsValid()); }
+  int span(const api::SpanId &t) { return of("S" + hx(t), !t.IsValid()); }
+};
+
+static int cmd_record(long nprog, uint64_t seed, int nthr, int maxops)
+{
+  for (long pi = 0; pi < nprog; ++pi)
+  {
+    World w(seed * 7919 + (uint64_t)pi, false);
+    Ranks rk;
+    std::mt19937_64 &g = w.rng;
+    std::cout << "{\"e\":\"Cfg\",\"prog\":" << pi << "}\n";
+    int nops = 30 + (int)(g() % (uint64_t)(maxops - 29));
+    int nremote = 0;
+    auto tsid = [&](const std::string &h) {
+      for (int i = 0; i < 3; ++i)
+        if (h == w.ts_txt[i])
+          return i;
+      return 7;
+    };
+    auto cur = [&]() {
+      json a = json::array();
+      for (int t = 1; t <= nthr; ++t)
+      {
+        api::SpanContext c{false, false};
+        run_on(t, [&] { c = api::Tracer::GetCurrentSpan()->GetContext(); });
+        a.push_back(json::array({rk.trace(c.trace_id()), rk.span(c.span_id())}));
+      }
+      return a;
+    };
+    auto do_end = [&](int t, size_t e) {
+      Entity &en = w.ents[e];
+      run_on(t, [&] { en.span->End(); });
+      en.ended       = true;
+      std::string sp = hx(en.ctx.span_id());
+      int n = 0;
+      Exported x;
+      {
+        std::lock_guard<std::mutex> gl(w.cap.m);
+        for (auto &y : w.cap.spans)
+          if (y.span == sp)
+          {
+            ++n;
+            x = y;
+          }
+      }
+      api::SpanContext c2 = en.span->GetContext();
+      json ev{{"e", "end"}, {"t", t}, {"en", e + 1}, {"n", n},
+              {"ctx", json::array({rk.trace(c2.trace_id()), rk.span(c2.span_id())})}};
+      if (n >= 1)
+      {
+        ev["trace"]  = rk.of("T" + x.trace, x.trace == std::string(32, '0'));
+        ev["parent"] = rk.of("S" + x.parent, x.parent == std::string(16, '0'));
+        ev["flags"]  = x.flags == x.ctxflags ? x.flags : 1000 + x.flags;
+        ev["ts"]     = tsid(x.ts);
+      }
+      ev["cur"] = cur();
+      std::cout << ev.dump() << "\n";
+    };
+    for (int k = 0; k < nops; ++k)
+    {
+      uint64_t r = g() % 100;
+      int t      = 1 + (int)(g() % (uint64_t)nthr);
+      if (w.ents.empty() && r >= 50)
+        r = r % 50;
+      if (r < 10)
+      {
+        if (nremote >= 4)
+          continue;
+        ++nremote;
+        static const int FL[] = {0, 1, 2, 3, 255};
+        static const char *FO[] = {"valid", "valid", "valid", "zero", "notrace", "nospan"};
+        int fl = FL[g() % 5], ts = (int)(g() % 2);
+        std::string form = FO[g() % 6], tc = (g() % 2) ? "hi" : "lo";
+        Entity en = make_remote(w, fl, ts, form, tc);
+        w.ents.push_back(en);
+        json ev{{"e", "remote"}, {"flags", fl}, {"ts", ts}, {"form", form}, {"tcls", tc},
+                {"trace", rk.trace(en.ctx.trace_id())}, {"span", rk.span(en.ctx.span_id())}};
+        ev["cur"] = cur();
+        std::cout << ev.dump() << "\n";
+      }
+      else if (r < 50)
+      {
+        std::string s = ALL_SAMPLERS[g() % 16];
+        json m;
+        uint64_t mr = g() % 100;
+        size_t ne   = w.ents.size();
+        if (mr < 30 || (ne == 0 && mr < 55))
+          m = json{{"type", "none"}, {"e", 0}, {"root", false}};
+        else if (mr < 55)
+          m = json{{"type", "sc"}, {"e", 1 + g() % ne}, {"root", false}};
+        else if (mr < 60)
+          m = json{{"type", "sc0"}, {"e", 0}, {"root", false}};
+        else
+          m = json{{"type", "ctx"}, {"e", g() % (ne + 1)}, {"root", g() % 10 < 3}};
+        std::string tc = (g() % 2) ? "hi" : "lo";
+        w.gen.hi       = tc == "hi";
+        auto tracer    = w.provider(s)->GetTracer("c05rec");
+        api::StartSpanOptions opt;
+        make_options(w, m, opt);
+        Entity en;
+        run_on(t, [&] { en.span = tracer->StartSpan("s", opt); });
+        en.ctx = en.span->GetContext();
+        json got{{"trace", rk.trace(en.ctx.trace_id())},
+                 {"span", rk.span(en.ctx.span_id())},
+                 {"flags", (int)en.ctx.trace_flags().flags()},
+                 {"ts", tsid(en.ctx.trace_state() ? en.ctx.trace_state()->ToHeader() : std::string("<null>"))},
+                 {"rec", en.span->IsRecording()},
+                 {"valid", en.ctx.IsValid()},
+                 {"remote", en.ctx.IsRemote()}};
+        w.ents.push_back(en);
+        json ev{{"e", "start"}, {"t", t}, {"s", s}, {"m", m}, {"tcls", tc}, {"got", got}};
+        ev["cur"] = cur();
+        std::cout << ev.dump() << "\n";
+      }
+      else if (r < 70)
+      {
+        size_t e = g() % w.ents.size();
+        run_on(t, [&] { w.scopes[(size_t)t].emplace_back(new api::Scope(w.ents[e].span)); });
+        json ev{{"e", "with"}, {"t", t}, {"en", e + 1}};
+        ev["cur"] = cur();
+        std::cout << ev.dump() << "\n";
+      }
+      else if (r < 85)
+      {
+        if (w.scopes[(size_t)t].empty())
+          continue;
+        run_on(t, [&] { w.scopes[(size_t)t].pop_back(); });
+        json ev{{"e", "release"}, {"t", t}};
+        ev["cur"] = cur();
+        std::cout << ev.dump() << "\n";
+      }
+      else
+      {
+        size_t e = g() % w.ents.size();
+        if (w.ents[e].remote || w.ents[e].ended)
+          continue;
+        do_end(t, e);
+      }
+    }
+    for (size_t e = 0; e < w.ents.size(); ++e)
+      if (!w.ents[e].remote && !w.ents[e].ended)
+        do_end(1 + (int)(e % (size_t)nthr), e);
+    for (size_t t = 1; t < w.scopes.size(); ++t)
+      if (!w.scopes[t].empty())
+        run_on((int)t, [&] {
+          while (!w.scopes[t].empty())
+            w.scopes[t].pop_back();
+        });
+    w.ents.clear();
+    w.providers.clear();
+  }
+  std::cout.flush();
+  stop_workers();
+  return 0;
+}
+
 int main(int argc, char **argv)
 {
+  if (argc >= 6 && std::string(argv[1]) == "record")
+    return cmd_record(std::stol(argv[2]), std::stoull(argv[3]), std::stoi(argv[4]), std::stoi(argv[5]));
   if (argc >= 5 && std::string(argv[1]) == "replay")
-    return cmd_replay(argv[2], std::stoull(argv[3]), std::string(argv[4]) == "random");
+    return cmd_replay(argv[2], std::stoull(argv[3]), std::string(argv[4]) == "random", argc >= 6);
   if (argc >= 4 && std::string(argv[1]) == "fork")
-    return cmd_fork(argv[2], std::stoull(argv[3]));
+    return cmd_fork(argv[2], std::stoull(argv[3]), argc >= 5);
   std::cerr << "usage: c05_identity replay <file> <seed> counter|random | fork <file> <seed>" << std::endl;
   return 2;
 }
